@@ -430,6 +430,13 @@ theorem recvTrailers_len (c : H2Conn) (sid : Nat) (kind : HdrKind) (es : Bool) :
           · simp
         · rw [andThen_len _ _ discardHeaders_len]; simp
 
+theorem addStrm_len (c : H2Conn) (s : Strm) : (addStrm c s).streams.length = c.streams.length + 1 := by
+  have h := congrArg List.length (List.takeWhile_append_dropWhile (p := fun x => decide (x.prio > s.prio))
+    (l := c.streams.reverse))
+  simp only [List.length_append, List.length_reverse] at h
+  simp only [addStrm, List.length_append, List.length_reverse, List.length_cons, List.length_nil]
+  omega
+
 /-- the number of tracked streams never exceeds the limit: a HEADERS frame adds a stream
     only while fewer than h2MaxStreams are active -/
 theorem recvHeaders_len_le (c : H2Conn) (sid : Nat) (kind : HdrKind) (es : Bool) (dep : Option Nat) (padBad : Bool)
@@ -451,8 +458,8 @@ theorem recvHeaders_len_le (c : H2Conn) (sid : Nat) (kind : HdrKind) (es : Bool)
             · rename_i hfull
               unfold newStream
               split
-              · simp [addStrm]; omega
-              · simp [addStrm]; omega
+              · rw [sendGoaway_len, addStrm_len]; omega
+              · simp only; rw [addStrm_len]; omega
 
 theorem recvFrame_len_le (c : H2Conn) (f : FrameIn) (h : c.streams.length ≤ Extracted.h2MaxStreams) :
     (recvFrame c f).1.streams.length ≤ Extracted.h2MaxStreams := by
